@@ -856,7 +856,9 @@ attrsLoop:
 				sandboxFound = true
 				var cleanVals []string
 				cleanValsSet := make(map[string]bool)
-				for _, val := range strings.Fields(htmlAttr.Val) {
+				// the value is split where HTML splits it: U+00A0 and other
+				// Unicode spaces are part of a (then unknown) token
+				for _, val := range strings.FieldsFunc(htmlAttr.Val, isASCIIWhitespace) {
 					if p.requireSandboxOnIFrame[val] {
 						if !cleanValsSet[val] {
 							cleanVals = append(cleanVals, val)
